@@ -31,6 +31,15 @@ def drive(ctx):
             r = ctx.emit("time_add", {"h": h, "mi": mi, "s": s, "us": us, "entry": en}, [T(t)])
             if en == "add" and not isinstance(r, Exception):
                 ctx.emit("time_add", {"h": h, "mi": mi, "s": s, "us": us, "entry": "subtract"}, pre_objs=[r])
+    # a pendulum Duration as the amount (+, -, Duration + Time): under a day either sign, and with whole days
+    for k in range(120 if q else 2000):
+        t = (rnd.randrange(24), rnd.randrange(60), rnd.randrange(60), rnd.randrange(10 ** 6))
+        sg = rnd.choice((1, -1))
+        a = {"h": sg * rnd.choice((0, 0, 1, 5, 23)), "mi": sg * rnd.choice((0, 1, 59, 61, 90)), "s": sg * rnd.choice((0, 1, 59, 60, 3599)),
+             "us": sg * rnd.choice((0, 1, 999999, 500000)), "entry": ("plus_dur", "minus_dur")[k % 2]}
+        if k % 10 == 0:
+            a["h"] = sg * rnd.choice((24, 48, 25))
+        ctx.emit("time_add", a, [T(t)])
     for k in range(60 if q else 1500):
         t = (rnd.randrange(24), rnd.randrange(60), rnd.randrange(60), rnd.randrange(10 ** 6))
         a = {"h": rnd.randrange(-100, 101), "mi": rnd.randrange(-5000, 5001), "s": rnd.randrange(-10 ** 6, 10 ** 6),
